@@ -3,6 +3,7 @@ import assert from 'node:assert/strict';
 import { isLfsEnvelope } from '../envelope.js';
 
 test('isLfsEnvelope detects marker', () => {
-  assert.equal(isLfsEnvelope(new TextEncoder().encode('{"kfs_lfs":1}')), true);
+  assert.equal(isLfsEnvelope(new TextEncoder().encode('{"kfs_lfs":1,"bucket":"b"}')), true);
+  assert.equal(isLfsEnvelope(new TextEncoder().encode('{"kfs_lfs":1}')), false);
   assert.equal(isLfsEnvelope(new TextEncoder().encode('plain')), false);
 });
